@@ -24,7 +24,8 @@ def test_units():
     return us
 
 
-QUICK_DEFAULT = lambda: zoo(["all"], gcc=(True, False))
+# (+ two parts with every optional feature off: a statement that slipped under a feature's #if / HFSM2_IF_* only shows where the feature is absent)
+QUICK_DEFAULT = lambda: zoo(["all"], gcc=(True, False)) + parts("none", (1, 3, 4), True)
 THOROUGH_DEFAULT = lambda: (zoo(["all", "all-li", "all-nolog", "none", "plans", "utility", "serial", "history", "report", "log", "verbose",
                                  "all-plans", "all-utility", "all-history"], gcc=(True,))
                             + zoo(["all", "none"], gcc=(False,)) + zoo(["all"], gcc=(True,), flavour="development")
